@@ -591,8 +591,8 @@ def run(ctx):
                     if r["id"] in verdicts else None}, limit=3)
 
     # ---------------------------------------------------------------- code -> spec at real sizes
-    nrand = 24 if quick else 600
-    rbehs = [random_behaviour(ctx.rng, ctx.rng.randrange(3, 11 if quick else 25)) for _ in range(nrand)]
+    nrand = 24 if quick else 200
+    rbehs = [random_behaviour(ctx.rng, ctx.rng.randrange(3, 11 if quick else 18)) for _ in range(nrand)]
     rrecs = run_cases(ctx, rbehs, libpath, jobs)
     for r in rrecs:
         ctx.case(mg.beh_key(r["beh"]))
